@@ -2,18 +2,27 @@
 package main
 
 import (
+	"os"
+
 	"verifh/luagen"
 	"verifh/luaprop"
 )
 
 func main() {
+	if len(os.Args) > 1 && os.Args[1] == "fenvchild" {
+		fenvChild(os.Args[2:])
+		return
+	}
 	f := luagen.CoreFeatures()
 	f.Closures, f.Goto, f.Errors, f.Funcs, f.Coroutines, f.Fenv, f.Varargs, f.MultiAssign = 14, 6, 5, 4, 3, 4, 1, 2
 	luaprop.Main(&luaprop.Config{
 		Prop: "C03",
 		Rule: "generated programs dominated by closure shapes (counter factories, closures created in for/while/repeat/blocks/calls, shared upvalues, two-level capture) whose scopes are left by " +
 			"fall-through, break, goto, return, tail call, an error caught by pcall/xpcall, coroutine suspension/death; afterwards a clobber call reuses the registers and the closures are read and written; " +
-			"setfenv/getfenv shapes; traces compared with the reference evaluator; non-trivial = at least 5 emitted rows or an error outcome; distinct by Gallina term",
+			"setfenv/getfenv shapes; traces compared with the reference evaluator; non-trivial = at least 5 emitted rows or an error outcome; distinct by Gallina term; " +
+			"mode nested-exit: one exit statement (forward/backward goto, break, return, error) leaves 2-4 nested blocks that own captured locals; " +
+			"environment scripts (fenv-*): random trees of setfenv(0|1|f)/getfenv/debug.setfenv, free-name reads and writes, closures, loaded chunks, coroutines created and resumed at different times, " +
+			"through the base library or the host API, then host operations on the idle main thread, compared with coq/Fenv/FenvModel.v (non-trivial = at least 3 emitted values)",
 		Modes: []luaprop.Mode{{Name: "closures", Features: f, Weight: 5},
 			// wave 5: small programs around one exit statement that leaves several captured blocks at once
 			{Name: "nested-exit", Features: f, Weight: 1, Gen: luagen.W5C03Program}},
@@ -22,6 +31,11 @@ func main() {
 		Corpus:    corpus,
 		VM:        true,
 		Isolate:   true,
+		// wave 5: environment scripts (fenv.go) with their own case kind C3Env of coq/Fenv/C03Cases.v
+		Extra:       fenvExtra,
+		ReplayExtra: fenvReplay,
+		CaseHeader:  c03Header,
+		CaseType:    "c3case",
 		KF: func(uses map[string]int, src string) []string {
 			if uses["funcdef-local-assign-selfref"] > 0 {
 				return []string{"C03-2"}
